@@ -1,5 +1,6 @@
 import LenaModel.DriverUtil
 import LenaModel.Model.C09
+import LenaModel.Model.C09Spec
 /-! Model driver for C09.  One request = one element and one history:
   {"el": EL, "ops": [OP, ...]}  ->  {"obs": [OBS, ...]} (+ "prec": n for dsum) | {"init_err": "LenaValueError"|...}
   EL:  {"k":"count","name":s,"count0":i} | {"k":"sum","total0":i} | {"k":"dsum","total0":[coef,exp]}
@@ -187,7 +188,68 @@ def runCountRun (cfg : CountCfg) (ops : List Json) : Json :=
   | none => err "bad countrun ops"
   | some (_, out) => Json.mkObj [("obs", Json.arr out.toArray)]
 
+/-- the specification vocabulary of the theorems (`Model/C09Spec.lean`), executed on the harness's inputs -/
+def handleSpec (j : Json) : Json :=
+  let items? (k : String) : Option (List (Item Int)) := (arr? (getD j k)).bind (fun a => a.toList.mapM (item? int?))
+  match str? (getD j "spec") with
+  | some "stats" =>
+    match items? "vs" with
+    | none => err "bad stats"
+    | some vs =>
+      let xs := vs.map (·.data)
+      let n := vs.length
+      let dev : Json := if n == 0 then Json.null else ratJ (sqDev ((isum xs : Rat) / (n : Rat)) xs)
+      Json.mkObj [("ctxAfter", ctxJ (ctxAfter [] vs)), ("dataSum", ofInt (dataSum vs)), ("dataSumSq", ofInt (dataSumSq vs)),
+        ("isum", ofInt (isum xs)), ("isumSq", ofInt (isumSq xs)), ("sqDev", dev),
+        ("bareCtx", ctxJ (ctxAfter [("x", some 1)] (bare vs))), ("bareSum", ofInt (dataSum (bare vs)))]
+  | some "keys" =>
+    match intList? (getD j "ks"), int? (getD j "probe") with
+    | some ks, some probe =>
+      let st := (groupByM Int Nat).fillAll [] (ks.zipIdx)
+      Json.mkObj [("firstKeys", ofIntList (firstKeys ks)), ("lookup", ofList ofNat (groupLookup st probe))]
+    | _, _ => err "bad keys"
+  | some "vec" =>
+    match (arr? (getD j "rows")).bind (fun a => a.toList.mapM intList?), nat? (getD j "i") with
+    | some rows, some i =>
+      let vs : List (Item (List Int)) := rows.map (fun r => ⟨r, none⟩)
+      let fe := firstErr (rows.map (fun r => if r.isEmpty then (Except.error Err.zeroDivision : Except Err (List Int)) else .ok r))
+      Json.mkObj [("column", ofIntList ((column i vs).map (·.data))),
+        ("zip", ofList (ofList (ofOpt ofInt)) (zipLongest rows)),
+        ("firstErr", match fe with | .error e => Json.str (errName e) | .ok yss => ofList ofIntList yss)]
+    | _, _ => err "bad vec spec"
+  | some "bins" =>
+    let optList (x : Json) : Option (Option (List Int)) := if x.isNull then some none else (intList? x).map some
+    match intList? (getD j "edges"), intList? (getD j "xs"), nat? (getD j "n"), nat? (getD j "j"),
+        optList (getD j "bins"), optList (getD j "make_bins"), int? (getD j "iv") with
+    | some es, some xs, some n, some jj, some b, some mb, some iv =>
+      Json.mkObj [("idx", ofIntList (xs.map (binIndex es))),
+        ("in", ofList (fun x => Json.bool (inBin es jj ⟨x, none⟩)) xs),
+        ("out", ofList (fun x => Json.bool (outOfRange es n ⟨x, none⟩)) xs),
+        ("initBins", ofIntList (HistCfg.initBins ⟨es, b, mb, iv⟩))]
+    | _, _, _, _, _, _, _ => err "bad bins spec"
+  | some "dsum" =>
+    match (arr? (getD j "vs")).bind (fun a => a.toList.mapM dy?) with
+    | some ds =>
+      let vs : List (Item Dy) := ds.map (fun d => ⟨d, some [("a", some 1)]⟩)
+      Json.mkObj [("dySum", ratJ (dySum vs)), ("bareSum", ratJ (dySum (bareDy vs))),
+        ("dec", ofList (fun d => ratJ (Dec.ofDy d).toRat) ds), ("dy", ofList (fun d => ratJ d.toRat) ds)]
+    | none => err "bad dsum spec"
+  | some "histel" =>
+    let optN (x : Json) : Option (Option (Lena.NArr Int)) := if x.isNull then some none else (narr? x).map some
+    match edges? (getD j "edges"), optN (getD j "bins"), int? (getD j "iv"),
+        (arr? (getD j "vs")).bind (fun a => a.toList.mapM (item? coord?)) with
+    | some edges, some bins, some iv, some vs =>
+      match Lena.C06.HistEl.new ([] : Ctx) edges bins iv with
+      | .error e => Json.mkObj [("e", errName (ofLenaErr e))]
+      | .ok e0 =>
+        match Lena.C06.HistEl.fillAll ([] : Ctx) (1 : Int) e0 (toC06 vs) with
+        | .error e => Json.mkObj [("e", errName (ofLenaErr e))]
+        | .ok e => Json.mkObj [("bins", narrJ e.hist.bins), ("n_out", ofInt e.hist.nOut), ("c", ctxJ e.curContext)]
+    | _, _, _, _ => err "bad histel spec"
+  | _ => err "unknown spec"
+
 def handle (j : Json) : Json :=
+  if !(getD j "spec").isNull then handleSpec j else
   let el := getD j "el"
   match arr? (getD j "ops") with
   | none => err "no ops"
